@@ -2,7 +2,8 @@ import TxV.Model.PEAllocator
 open TxV TxV.Proto TxV.PEAllocator
 
 /-- protocol:
-    `cfg n=5 aw=2 fw=2 init=31` → `ok`            (`init` = reset mask, already reduced to `n` bits)
+    `cfg n=5 aw=2 fw=2 init=31 cf=0` → `ok`   (`init` = reset mask reduced to `n` bits, two's complement for
+    negative masks; `cf` = `clear` has priority over `replace` when both are attempted)
     `cyc a=10 f=3,- p=1 r=- c=0` → `a=0,- f=10 p=31 r=0 c=0 rdy=11`
     input: `a` one attempt bit per alloc way; `f` per free way the identifier or `-` (empty for 0 ways);
     `p` peek attempt; `r` replace mask or `-`; `c` clear attempt.
@@ -17,8 +18,8 @@ def parseOptList (s : String) : Option (List (Option Nat)) :=
 
 def showBits (l : List Bool) : String := String.join (l.map showBool)
 
-def stepLine (cs : Cfg × State) (line : String) : (Cfg × State) × String :=
-  let (c, s) := cs
+def stepLine (cs : (Cfg × Bool) × State) (line : String) : ((Cfg × Bool) × State) × String :=
+  let ((c, cf), s) := cs
   let t := tokens line
   match t.head? with
   | some "cfg" =>
@@ -26,7 +27,7 @@ def stepLine (cs : Cfg × State) (line : String) : (Cfg × State) × String :=
     | some n, some aw, some fw, some iv =>
       if n = 0 || iv ≥ 2 ^ n then (cs, "bad-op") else
       let c' : Cfg := { n := n, aw := aw, fw := fw, init := bitsOf n iv }
-      ((c', init c'), "ok")
+      (((c', natD t "cf" 0 == 1), init c'), "ok")
     | _, _, _, _ => (cs, "bad-op")
   | some "cyc" =>
     match (kv? t "a").bind parseBits, (kv? t "f").bind parseOptList, nat? t "p", kv? t "r", nat? t "c" with
@@ -37,10 +38,10 @@ def stepLine (cs : Cfg × State) (line : String) : (Cfg × State) × String :=
       | some rep =>
         if a.length ≠ c.aw || f.length ≠ c.fw || p > 1 || cl > 1 || (rep.getD 0) ≥ 2 ^ c.n then (cs, "bad-op") else
         let i : In := { alloc := a, free := f, peek := p == 1, replace := rep.map (bitsOf c.n), clear := cl == 1 }
-        let (s', o) := step c s i
+        let (s', o) := stepP c cf s i
         let sa := ",".intercalate (o.alloc.map showOpt)
-        ((c, s'), s!"a={sa} f={showBits o.free} p={showOpt (o.peek.map natOf)} r={showBool o.replace} c={showBool o.clear} rdy={showBits o.rdy}")
+        (((c, cf), s'), s!"a={sa} f={showBits o.free} p={showOpt (o.peek.map natOf)} r={showBool o.replace} c={showBool o.clear} rdy={showBits o.rdy}")
     | _, _, _, _, _ => (cs, "bad-op")
   | _ => (cs, "bad-op")
 
-def main : IO Unit := Proto.run (({ n := 1, aw := 1, fw := 1, init := [true] } : Cfg), ({ mask := [true] } : State)) stepLine
+def main : IO Unit := Proto.run ((({ n := 1, aw := 1, fw := 1, init := [true] } : Cfg), false), ({ mask := [true] } : State)) stepLine
